@@ -371,13 +371,8 @@ func c7Names(c *Ctx) {
 	}
 	chk := c.Method(ZapPath, "Logger", "check")
 	if c.Anchor("R7.5", "zap.Logger.check", chk != nil) {
-		ok := false
-		AllInstrs(chk, func(i ssa.Instruction) {
-			if st, isSt := i.(*ssa.Store); isSt && Desc(st.Addr) == "ent.LoggerName" {
-				ok = Desc(st.Val) == "log.name"
-			}
-		})
-		c.Check(ok, "R7.5", chk.String(), "name-into-entry", chk.Pos(), "every entry carries the logger's own name")
+		ef, efOK := entryAtCoreCheck(c)
+		c.Check(efOK && ef["LoggerName"] == chk.Params[0].Name()+".name", "R7.5", chk.String(), "name-into-entry", chk.Pos(), "every entry handed to Core.Check carries the logger's own name (%v)", ef)
 	}
 	sn := c.Method(ZapPath, "SugaredLogger", "Named")
 	if c.Anchor("R7.5", "zap.SugaredLogger.Named", sn != nil) {
